@@ -253,6 +253,18 @@ func cmdRun(id string, args []string) int {
 		if *maxPaths > 0 {
 			cfg.MaxPaths = *maxPaths
 		}
+		// initialise every source-loaded package (each init is guarded and runs its imports first);
+		// the harness package last
+		var names []string
+		for n := range ld.Pkgs {
+			if n != c.Package {
+				names = append(names, n)
+			}
+		}
+		sort.Strings(names)
+		for _, n := range names {
+			cfg.InitPkgs = append(cfg.InitPkgs, ld.Pkgs[n])
+		}
 		cfg.InitPkgs = append(cfg.InitPkgs, hp)
 		if len(c.Stubs) > 0 {
 			cfg.Overrides = map[string]*ssaFunction{}
